@@ -192,8 +192,11 @@ def parse_with_formats(date_string, date_formats, settings):
             except ValueError:
                 continue
 
-            missing_month = not any(m in date_format for m in ["%m", "%b", "%B"])
-            missing_day = "%d" not in date_format
+            # "%j" (day of the year) states both the month and the day
+            missing_month = not any(
+                m in date_format for m in ["%m", "%b", "%B", "%j"]
+            )
+            missing_day = not any(d in date_format for d in ["%d", "%j"])
             if missing_month and missing_day:
                 period = "year"
                 date_obj = set_correct_month_from_settings(date_obj, settings)
